@@ -123,7 +123,7 @@ def relabel(spec, rng, labels=True, order=True, rows=True, cyclic=False):
 def jobs(tier, seed):
     out = []
     specs = [catalog.w_line3(), catalog.w_mesh4(), catalog.w_components(), catalog.w_oos(), catalog.g_line3(),
-             catalog.g_components(), catalog.w_pi_valve(), catalog.w_circ_loop(), catalog.w_circ_mass(), catalog.w_heat_line(), catalog.w_three_pi(), catalog.w_pump_standby()]
+             catalog.g_components(), catalog.w_pi_valve(), catalog.w_circ_loop(), catalog.w_circ_mass(), catalog.w_heat_line(), catalog.w_heat_line_rev(), catalog.w_three_pi(), catalog.w_pump_standby()]
     rng = random.Random(6000 + seed)
     for i in range(0 if tier == "quick" else 30):
         specs.append(catalog.random_spec(rng, name="rand%d_s%d" % (i, seed)))
